@@ -471,12 +471,14 @@ class _SubopPeer(RecordingDimse):
     stubs=_STUBS + ["Association._accepted_cx is a PairDict so that IDs may be symbolic", "EVT_C_STORE handler returns 0x0000",
                     "the peer's messages come from a stand-in for assoc.dimse"],
     outside="requests on IDs that were not accepted (that is C19)",
+    findings=["C18-substore-refusal-context-1"],
 )
 def substore_response(a1: int, a2: int, two: bool, first_is_ct: bool, scp1: bool, on_second: bool) -> bool:
     """
     pre: 1 <= a1 <= 255 and a1 % 2 == 1
     pre: 1 <= a2 <= 255 and a2 % 2 == 1 and a2 != a1
     pre: two or not on_second
+    pre: not kf.skip("C18-substore-refusal-context-1", a1=a1, a2=a2, two=two, first_is_ct=first_is_ct, scp1=scp1, on_second=on_second)
     post: _ == True
     """
     with untraced():
